@@ -474,6 +474,21 @@ VARIANTS = [
             "            PCode.TREE: se.IdentityAdapter(),\n        }\n"
             "        super().__init__(\n"
             "            lambda ctx: PCode[ctx.PCode] if isinstance(ctx.PCode, str) else ctx.PCode, child_spec, by_pcode)\n"},
+    # ---- round 9
+    {"name": "R8 compressed normaliser converts the PCode without tolerating unnamed kinds", "file": "hippolyzer/lib/base/objects.py",
+     "expect": "C14.R8",
+     "old": "        try:\n            pcode = tmpls.PCode(pcode)\n        except ValueError:\n"
+            "            # The template keeps kinds it has no name for as plain numbers as well\n            pass\n",
+     "new": "        pcode = tmpls.PCode(pcode)\n"},
+    {"name": "P R8 PCode conversion tolerant of ValueError and TypeError", "file": "hippolyzer/lib/base/objects.py", "expect": "silent",
+     "old": "        except ValueError:\n            # The template keeps kinds it has no name for as plain numbers as well\n",
+     "new": "        except (ValueError, TypeError):\n            # The template keeps kinds it has no name for as plain numbers as well\n"},
+    {"name": "R5 subscribed handler reports a truthy result", "file": POM, "expect": "C14.R5",
+     "old": "        self._process_materials_response(flow.response.content)\n",
+     "new": "        self._process_materials_response(flow.response.content)\n        return True\n"},
+    {"name": "P R5 subscribed handler ends with an explicit return None", "file": POM, "expect": "silent",
+     "old": "        self._process_materials_response(flow.response.content)\n",
+     "new": "        self._process_materials_response(flow.response.content)\n        return None\n"},
     # ---- documented limits
     {"name": "X missing_locals bookkeeping dropped (not observed by the statement)", "file": OM, "expect": "miss",
      "old": "        self.missing_locals -= {obj.LocalID}\n", "new": ""},
